@@ -398,10 +398,13 @@ class Simplifier(pysmt.walkers.DagWalker):
         else:
             if len(new_args) == 0:
                 return const
-            elif not const.is_one():
+            # The constant factor is kept last, whatever its node id is:
+            # walk_plus looks for it there, and the shape of the result
+            # must not depend on the order in which nodes were created
+            new_args = sorted(new_args, key=FNode.node_id)
+            if not const.is_one():
                 new_args.append(const)
 
-        new_args = sorted(new_args, key=FNode.node_id)
         return self.manager.Times(new_args)
 
     def walk_pow(self, formula: FNode, args: List[FNode], **kwargs) -> FNode:
